@@ -163,6 +163,20 @@ def gen_cases(tier, seed):
         cases.append({'seed': rng.randrange(1 << 30), 'min_part': C, 'transfers': [t], 'body_read_sizes': [65536] if C > 8 else [3],
                       'config': dict(multipart_threshold=C, multipart_chunksize=C, max_request_concurrency=rng.choice([2, 3, 4])),
                       'plan': {'gate': {'match': '/cb:on_progress', 'phase': 'before', 'policy': 'seeded', 'count': rng.choice([1, 2, 3])}}})
+    # seekable streams sent as a single PutObject whose read(n) returns fewer bytes than asked for before EOF (raw / network-backed
+    # streams): the library reads them directly while the request is sent
+    for i in range(40 if quick else 400):
+        T = rng.choice([64, 300 * K, 600 * K])
+        size = rng.choice([T - 1, T // 2 + 1, 7]) if T == 64 else rng.choice([T - 1, 270 * K + 5, 100 * K])
+        t = {'kind': 'upload', 'src': 'seekable', 'size': size, 'start': rng.choice([0, 3]), 'flavor': rng.choice(['declared', 'duck']),
+             'src_caps': rng.choice([[3], [1, 7, 2], [1000], [4096, 1]])}
+        spec = {'seed': rng.randrange(1 << 30), 'config': dict(multipart_threshold=T, multipart_chunksize=max(T, 8)), 'transfers': [t],
+                'client': {'checksum': rng.choice(['when_supported', 'when_required']), 'scheme': rng.choice(['https', 'http'])},
+                'body_read_sizes': rng.choice([[8192], [3], [65536]]), 'plan': {}}
+        if rng.random() < 0.5:
+            spec['plan']['faults'] = [{'at': 't0/s3:PutObject#0', 'phase': 'mid', 'bytes': rng.randrange(0, size + 1), 'kind': rng.choice(['retry500', 'retryconn']),
+                                       'tag': 'FAULT-r0'}]
+        cases.append(spec)
     # several transfers one after the other on ONE manager (each finished before the next is submitted)
     for i in range(30 if quick else 300):
         C = 8
